@@ -160,6 +160,8 @@ package utils
 //@ pure
 
 //@ effectfree path/filepath\..* path\..*
+// logging and string formatting write to the process's log sink only: no modelled state
+//@ effectfree @/utils/log\..* fmt\.Sprintf fmt\.Sprint
 
 //@ func bytes.NewBuffer
 //@ inline
